@@ -5,6 +5,7 @@ import glob, json, os, shutil, subprocess, sys
 os.chdir('/verif')
 env = dict(os.environ, VERIF_DIR='/verif', VERIF_SEED='1')
 kept = dropped = 0
+types_rs = open('/verif/harness/generated/src/types.rs').read()
 for d in sorted(glob.glob('/verif/seeded/*/replays')):
     sid = os.path.basename(os.path.dirname(d))
     per_prop = {}
@@ -14,6 +15,9 @@ for d in sorted(glob.glob('/verif/seeded/*/replays')):
         prop = j.get('property')
         if prop in (None, 'C16', 'C20'): continue
         if per_prop.get(prop, 0) >= 3: continue
+        c = j.get('case', {})
+        if isinstance(c, dict) and c.get('origin') == 'gen' and c.get('type_source', '').strip() not in types_rs:
+            dropped += 1; continue
         r = subprocess.run(['/verif/target/debug/dv_check', '--replay', f], capture_output=True, text=True, env=env)
         if r.returncode != 0:
             dropped += 1   # does not hold / not decodable with the current program set
